@@ -7,7 +7,9 @@ RULE = ("one-statement programs 输出‹expr› after a 令/输入 prelude (one
         "body and yields the list of results: the same expression evaluated again yields its documented value again); type-directed expression trees of depth 1–6 over + − * / | %, "
         "the ten comparison spellings, 为/不为, 且/或, braces; operands from a boundary pool (±0, fractions, 2^53+1, 5E-324, 1E+308, "
         "±inf via 1*10^999, NaN/inf inputs, texts, bools, 空, lists, dictionaries incl. equal-keys-different-values pairs; number literals "
-        "changed in place where they stand: receiver of 自增/自减, argument of a callee that bumps its input, item of a list/dictionary literal); planted "
+        "changed in place where they stand: receiver of 自增/自减, argument of a callee that bumps its input, item of a list/dictionary literal; in half of "
+        "the programs 10–25 % of the leaves are members of texts: 长度 / 字数 and 转换数值 as numbers, 匹配 / 匹配开头 / 匹配结尾 as truth values, 替换 分隔 取样 去除空格 "
+        "转小写-英文 转大写-英文 拼接 格式化 as other values); planted "
         "display calls in operands (order, short-circuit); 0–15 % deliberately ill-typed operands. Non-trivial = at least two operators "
         "in the source. The generator's intended tree (minimal braces ⇒ precedence/associativity) is compared with the real parser's tree.")
 ASSUMPTIONS = ["IEEE-754 arithmetic, floor, comparisons of float64: Go runtime vs Lean Float, compared bit-for-bit per case, not proved",
